@@ -20,6 +20,8 @@
 
 #include "celma/prog_args.hpp"
 
+#include "celma/container/dynamic_bitset.hpp"
+
 #include "../sim/json.hpp"
 #include "../sim/prng.hpp"
 
@@ -54,6 +56,9 @@ struct Dest
    bool                                     verbose = false, version = false;
    int                                      sub_i = 0;
    std::string                              sub_s;
+   std::vector< int>                        rv;        // DEST_RANGE
+   std::bitset< 64>                         rb;        // DEST_RANGE_BITSET
+   celma::container::DynamicBitset          dynb{ 8};
 
    std::string snapshot() const
    {
@@ -76,11 +81,17 @@ struct Dest
       os_ << " b=" << b.to_string() << " vb=";
       for (bool v : vb) os_ << (v ? '1' : '0');
       os_ << " pos=[" << pos << "] cmd=[" << cmd << "] vl=" << verbose_level << verbose << version << " sub=" << sub_i << "[" << sub_s << "]";
+      if (!rv.empty() || rb.any() || dynb.count() > 0 || dynb.size() != 8)
+      {
+         os_ << " rv=";
+         for (size_t k = 0; k < rv.size() && k < 40; ++k) os_ << rv[ k] << ",";
+         os_ << "(" << rv.size() << ") rb=" << rb.to_string() << " dynb=" << dynb.count() << "/" << dynb.size();
+      }
       return os_.str();
    }
 };
 
-enum ArgKind { kFlag, kInt, kUnsigned, kDouble, kStr, kOptInt, kOptStr, kIntList, kStrList, kMap, kTuple, kBits, kPositional, kCommand };
+enum ArgKind { kFlag, kInt, kUnsigned, kDouble, kStr, kOptInt, kOptStr, kIntList, kStrList, kMap, kTuple, kBits, kPositional, kCommand, kRange };
 
 /// what the generators need to know about one defined argument
 struct ArgInfo
@@ -320,6 +331,27 @@ inline void build( Handler& h, Handler* sub, Dest& d, const Json& recipe, Built&
       tryOpt( out, "ValueMode::command", [ &] { a1->setValueMode( Handler::ValueMode::command); });
       out.args.push_back( ArgInfo{ "j", "exec", kCommand});
    }
+   if (has( recipe, "R15"))
+   {
+      // range strings ("1-5", "3,7,10-20[2]", "1-9{2-8}") into a container or a
+      // bitset, bit positions into the library's own dynamic bitset
+      h.addArgument( "r,range", DEST_RANGE( d.rv, int, std::vector), "range into vector");
+      ArgInfo  i1{ "r", "range", kRange};
+      i1.once = false;
+      i1.hi = 99;
+      out.args.push_back( i1);
+      h.addArgument( "R,range-bits", DEST_RANGE_BITSET( d.rb, 64), "range into bitset");
+      ArgInfo  i2{ "R", "range-bits", kRange};
+      i2.once = false;
+      i2.hi = 63;
+      out.args.push_back( i2);
+      auto     a3 = h.addArgument( "Y,dyn-bits", DEST_VAR( d.dynb), "dynamic bitset");
+      ArgInfo  i3{ "Y", "dyn-bits", kBits};
+      i3.once = false;
+      i3.hi = 200;
+      if (sep != ',') { tryOpt( out, "dynbits setListSep", [ &] { a3->setListSep( sep); i3.sep = sep; }); }
+      out.args.push_back( i3);
+   }
    if (has( recipe, "R14") && sub != nullptr)
    {
       sub->addArgument( "n,sub-int", DEST_VAR( d.sub_i), "sub int");
@@ -360,7 +392,7 @@ inline void describeRecipe( const Json& recipe, Built& out, bool with_subgroup)
 }
 
 /// draws a recipe (which sets, which options)
-inline Json genRecipe( Rng& rng, bool allow_positional, bool allow_subgroup, bool allow_command = false)
+inline Json genRecipe( Rng& rng, bool allow_positional, bool allow_subgroup, bool allow_command = false, bool allow_ranges = false)
 {
    static const char* const  sets[] = { "R1", "R2", "R3", "R4", "R5", "R6", "R7", "R8", "R11" };
    Json  r = Json::object();
@@ -379,6 +411,7 @@ inline Json genRecipe( Rng& rng, bool allow_positional, bool allow_subgroup, boo
    if (allow_positional && !multi && rng.chance( 1, 4)) chosen.push( "R12");
    if (allow_subgroup && rng.chance( 1, 6)) chosen.push( "R14");
    if (allow_command && rng.chance( 1, 5)) chosen.push( "R13");
+   if (allow_ranges && rng.chance( 1, 4)) chosen.push( "R15");
    r[ "sets"] = chosen;
    static const char* const  seps[] = { ",", ",", ";", ":", ".", "+", "|" };
    r[ "sep"] = seps[ rng.below( 7)];
@@ -419,7 +452,13 @@ inline std::string genTextBlock( Rng& rng, const std::string& forbidden)
       for (size_t w = 0; w < words; ++w)
       {
          size_t  len = 1 + static_cast< size_t>( rng.below( 10));
-         if (rng.chance( 2, 5)) len = static_cast< size_t>( rng.chance( 2, 3) ? rng.range( 40, 170) : rng.range( 170, 330));
+         // long words: dense around one and two times the width a wrapped
+         // usage line can have (80 columns minus the indent), plus a wide spread
+         if (rng.chance( 2, 5))
+         {
+            const unsigned  pick = static_cast< unsigned>( rng.below( 4));
+            len = static_cast< size_t>( pick <= 1 ? rng.range( 50, 82) : (pick == 2 ? rng.range( 100, 165) : rng.range( 40, 330)));
+         }
          if (w > 0) s += " ";
          s += std::string( len, static_cast< char>( 'a' + rng.below( 26)));
       }
@@ -433,7 +472,7 @@ inline std::string genStringValue( Rng& rng, const std::string& forbidden, bool 
 {
    static const char  plain[] = "abcdefghijklmnopqrstuvwxyzABCXYZ0123456789_";
    static const char  special[] = " '\"\\ :.";
-   if (hostile && g_text_blocks && rng.chance( 1, 6))
+   if (hostile && g_text_blocks && rng.chance( 1, 4))
       return genTextBlock( rng, forbidden);
    std::string   s;
    const size_t  len = 1 + static_cast< size_t>( rng.below( hostile ? 12 : 6));
@@ -506,7 +545,68 @@ inline std::vector< std::string> genValues( Rng& rng, const ArgInfo& a, bool hos
       size_t       n = 1 + static_cast< size_t>( rng.below( 4));
       std::string  joined;
       for (size_t k = 0; k < n; ++k)
-         joined += (k ? std::string( 1, a.sep) : std::string()) + std::to_string( rng.range( 0, a.hi));
+      {
+         std::string  pos = std::to_string( rng.range( 0, a.hi));
+         // C04: positions no container can have (small enough to be cheap or
+         // so large that any allocation is refused at once)
+         if (hostile_strings && g_text_blocks && rng.chance( 1, 8))
+         {
+            // ("-1" is what lexical_cast< size_t> turns into the largest position;
+            // long digit strings are avoided: cut short by a mutation they are
+            // legal positions that cost gigabytes and minutes)
+            static const char* const  odd[] = { "-1", "-1", "-1", "-0", "+3", "0x10", "1e3", "" };
+            pos = odd[ rng.below( 8)];
+         }
+         joined += (k ? std::string( 1, a.sep) : std::string()) + pos;
+      }
+      v.push_back( joined);
+      break;
+   }
+   case kRange:
+   {
+      // numbers of at most two digits: a word glued to another one by a
+      // mutation still describes a range of a few thousand values
+      auto num = [ &]() { return std::to_string( rng.range( 0, a.hi)); };
+      size_t       n = 1 + static_cast< size_t>( rng.below( 3));
+      std::string  joined;
+      for (size_t k = 0; k < n; ++k)
+      {
+         std::string  part;
+         switch (rng.below( 6))
+         {
+         case 0: part = num(); break;
+         case 1: { long long lo = rng.range( 0, a.hi / 2); part = std::to_string( lo) + "-" + std::to_string( rng.range( lo, a.hi)); break; }
+         case 2: { long long lo = rng.range( 0, a.hi / 2); part = std::to_string( lo) + "-" + std::to_string( rng.range( lo, a.hi)) + "[" + std::to_string( rng.range( 1, 5)) + "]"; break; }
+         case 3: { long long lo = rng.range( 0, a.hi / 3); part = std::to_string( lo) + "-" + std::to_string( rng.range( lo + 6, a.hi)) + "{" + std::to_string( lo + 1) + "-" + std::to_string( lo + 4) + "}"; break; }
+         default:
+            if (hostile_strings && g_text_blocks)
+            {
+               switch (rng.below( 8))
+               {
+               case 0: part = num() + "-" + num() + "[0]"; break;            // increment zero
+               case 1: part = "5-1"; break;
+               case 2: part = "1-"; break;
+               case 3: part = "-1"; break;
+               case 4: part = "1-9{2-8[0]}"; break;
+               case 5: part = "1-5[-1]"; break;
+               case 6:
+               {
+                  // nested excludes, a few up to a few thousand levels
+                  static const unsigned  depths[] = { 3, 12, 40, 400, 6000 };
+                  const unsigned  depth = depths[ rng.below( 5)];
+                  part = "1-9";
+                  for (unsigned l = 0; l < depth; ++l) part += "{2-8";
+                  part += std::string( depth, '}');
+                  break;
+               }
+               default: part = num() + "-" + num() + "[" + num() + "]{" + num() + "}"; break;
+               }
+            } else
+               part = num();
+            break;
+         }
+         joined += (k ? "," : "") + part;
+      }
       v.push_back( joined);
       break;
    }
